@@ -172,6 +172,8 @@ pub fn interesting(cuts: &[usize], total: usize, trailing: usize) -> bool {
 }
 
 /// records that are not a ClientHello
+pub const K_MIDSTREAM: &str = "K-C08-midstream";
+
 pub fn non_client_hello_records() -> Vec<(&'static str, Vec<u8>)> {
     let mut v = vec![];
     // ServerHello-like handshake record (type 2)
@@ -188,6 +190,27 @@ pub fn non_client_hello_records() -> Vec<(&'static str, Vec<u8>)> {
     let mut other = vec![0x16, 0x03, 0x03, 0x00, 0x0c, 0x0e, 0x00, 0x00, 0x00, 0x10, 0x00, 0x00, 0x04, 1, 2, 3, 4];
     other[4] = (other.len() - 5) as u8;
     v.push(("server-hello-done+kx", other));
+    // records that are not a ClientHello but carry the bytes of one: a cut in front of the embedded bytes must not
+    // make the reader take them for the start of the stream
+    let hello = gt::simple_hello().record();
+    for (name, ctype) in [("application-data-embedding-a-hello", 0x17u8), ("alert-embedding-a-hello", 0x15), ("unknown-type-embedding-a-hello", 0x00)] {
+        for lead in [0usize, 3, 40] {
+            let mut payload = vec![0xEEu8; lead];
+            payload.extend_from_slice(&hello);
+            payload.extend_from_slice(&[0xEE; 7]);
+            let mut r = vec![ctype, 0x03, 0x03, (payload.len() >> 8) as u8, payload.len() as u8];
+            r.extend(payload);
+            v.push((name, r));
+        }
+    }
+    // a ServerHello-type handshake message whose body embeds a ClientHello record
+    let mut body = vec![0x03, 0x03];
+    body.extend_from_slice(&hello);
+    let mut hs = vec![0x02, (body.len() >> 16) as u8, (body.len() >> 8) as u8, body.len() as u8];
+    hs.extend(body);
+    let mut r = vec![0x16, 0x03, 0x03, (hs.len() >> 8) as u8, hs.len() as u8];
+    r.extend(hs);
+    v.push(("server-hello-embedding-a-hello", r));
     v
 }
 
@@ -272,8 +295,9 @@ pub fn run(ctx: &Ctx) {
     );
     // (4) records that are not a ClientHello: nothing is ever reported
     let others = non_client_hello_records();
+    let embedded_hello = gt::simple_hello().record();
     let n_o = others.len() as u64;
-    ctx.run_indexed("non-client-hello", "ServerHello / alert / application-data / CCS / other handshake records x every single cut x {reader, packet level v4, v6}; non-trivial: every case", true, n_o, |i, st| {
+    ctx.run_indexed("non-client-hello", "ServerHello / alert / application-data / CCS / other handshake records, and records of four kinds whose payload embeds the bytes of a ClientHello record (at 3 offsets), x every single cut x {reader, packet level v4, v6}; non-trivial: every case", true, n_o, |i, st| {
         let (name, rec) = &others[i as usize];
         for c in 0..rec.len() {
             st.evals += 1;
@@ -293,6 +317,18 @@ pub fn run(ctx: &Ctx) {
                 let mut flows = ttl_cache::TtlCache::new(8);
                 for f in seg_frames(&ip, 40002, 443, 77, &split(rec, &cuts)) {
                     if let Ok(Some(o)) = tls_feed(&f, &mut flows) {
+                        // recorded finding: the packet-level analyzer keeps no state for a connection whose first segment is not a
+                        // TLS handshake, so a later segment that begins exactly at embedded ClientHello bytes is read as a new stream
+                        let embedded_at = rec.windows(embedded_hello.len()).position(|w| w == &embedded_hello[..]);
+                        let is_the_finding = rec[0] != 0x16 && Some(c) == embedded_at && {
+                            let mut fresh = ttl_cache::TtlCache::new(8);
+                            let alone = seg_frames(&ip, 40002, 443, 77, &[embedded_hello.clone()]).into_iter().filter_map(|g| tls_feed(&g, &mut fresh).ok().flatten()).next();
+                            alone.map(|a| crate::drive::tls_out_str(&a)) == Some(crate::drive::tls_out_str(&o))
+                        };
+                        if is_the_finding && ctx.is_known(K_MIDSTREAM) {
+                            st.known(K_MIDSTREAM);
+                            continue;
+                        }
                         st.fail(fail!("packets:non-clienthello-reported", "{name}: {}", crate::drive::tls_out_str(&o)), json!({"record": hex(rec), "cut": c}));
                     }
                 }
@@ -442,11 +478,20 @@ pub fn fuzz_segments(data: &[u8]) {
     let raw: Vec<u16> = data[..3].iter().map(|b| (*b as u16) * 257).collect();
     let stream = &data[3..];
     if stream.len() < 5 || stream[0] != 0x16 {
-        // reader contract for non-handshake starts: never a result
+        // the first record is not a ClientHello: its bytes produce no result, however they are cut. What follows the
+        // record is outside the statement (a reader may or may not pick up a later handshake record).
+        let first_record_end = if stream.len() < 5 { stream.len() } else { (5 + u16::from_be_bytes([stream[3], stream[4]]) as usize).min(stream.len()) };
         let mut r = TlsClientHelloReader::new();
+        let mut delivered = 0usize;
         for c in split(stream, &cut_positions(&raw, stream.len())) {
-            if let Ok(Some(_)) = r.add_bytes(&c) {
-                panic!("result for a stream that does not start with a handshake record");
+            delivered += c.len();
+            let res = r.add_bytes(&c);
+            if delivered <= first_record_end {
+                if let Ok(Some(_)) = res {
+                    panic!("result from the bytes of a record that is not a handshake record");
+                }
+            } else {
+                break;
             }
         }
         return;
